@@ -393,8 +393,9 @@ def honoured(chk, rng, n):
             chk.count(1, ("step_bound", tid))
             chk.stratum("air_speed_far_above_ground_speed")
 
-        acc = rng.choice([1e-3, 1e-5, 5e-6])
-        cap = rng.choice([1, 2, 5, 20])
+        # (placed, not drawn: caps the search is certain to hit - 1 and 2 trials at an accuracy that needs four - and caps it does not)
+        acc = [5e-6, 1e-5, 1e-3, 5e-6][i % 4]
+        cap = [1, 2, 5, 20][i % 4]
         core.reset_world()
         shot = shots.build_shot({"table": "G7", "bc": 0.25, "mv_fps": 2700.0, "sight_in": 2.0, "look_deg": 0.0, "alt_ft": 0.0, "winds": []})
         calc = shots.build_calc({"cZeroFindingAccuracy": acc, "cMaxIterations": cap, "max_calc_step_size_feet": 1.0})
@@ -472,7 +473,7 @@ def run(chk: core.Check, replay=None) -> None:
     with tempfile.TemporaryDirectory(dir=str(core.scratch())) as td:
         replay_names(chk, cases, td)
     chk.sample({"name_case": cases[7]})
-    chk.require_strata(["limits_that_are_not_whole_numbers", "cfg_settings_dict_reused", "cfg_SetGlobalStep", "cfg_ResetGlobals", "cfg_NewCalc", "cfg_Use", "cfg_nonpositive_global_step",
+    chk.require_strata(["zero_cap_hit", "zero_converged", "limits_that_are_not_whole_numbers", "cfg_settings_dict_reused", "cfg_SetGlobalStep", "cfg_ResetGlobals", "cfg_NewCalc", "cfg_Use", "cfg_nonpositive_global_step",
                         "cfg_use_with_global_changed", "gravity_custom", "limit_above_the_launch_point_barrel_up", "air_speed_far_above_ground_speed", "zeroing_path_settings", "limits_custom", "names_parse_unit", "names_set_pref",
                         "names_value_with_prefix", "names_value_preferred_name", "names_config_file_preferred",
                         "names_config_file_step_units", "names_unknown", "names_unknown_among_valid_entries"])
